@@ -5,14 +5,14 @@ Commander.read_stream; the session that strings them together (login, SIZE, PASV
 
 Server scripts: for every step of a fetch (welcome, USER, PASS, TYPE, SIZE, PASV, REST, RETR / MLSD / LIST, final reply) a grammar of replies -- the
 expected one, other 2xx / 3xx / 4xx / 5xx codes, multi-line replies, a reply without final line, garbage, an over-long line, a closed connection -- each
-delivered under several segmentations; for the transfer, both orders of "226 on the control connection" and "EOF on the data connection", a data
+delivered under several segmentations (SIZE replies that understate or overstate the file included: the size a server announces is a hint, the end of the
+data connection is what ends the file); for the transfer, both orders of "226 on the control connection" and "EOF on the data connection", a data
 connection that closes early, and a 4xx final reply.  Requests: plain, with user / password, and with percent-encoded CR / LF / NUL in user, password
 and path.
 Checked:  (1) every write on the control connection is exactly one line: it ends with CR LF and contains no other CR, LF or NUL (C17);
 (2) a download that returns normally has read a final 2xx reply AND the whole data stream: the file holds every byte the server sent, whichever came
 first (C17);  (3) whatever the server does, the only exceptions that leave start / download / start_listing / download_listing are the per-URL kinds
-ServerError, ProtocolError, NetworkError, SSLVerificationError (C09) -- AuthenticationError and FTPServerError are ServerErrors;
-(4) nothing is written to the control connection after the session has reported a failure of that fetch (no command of a dead fetch leaks into the next).
+ServerError, ProtocolError, NetworkError, SSLVerificationError (C09) -- AuthenticationError and FTPServerError are ServerErrors.
 Bound: quick ~2500 fetches (seeded choice of one deviation per fetch + all single deviations), thorough ~25000."""
 import argparse, asyncio, io, json, os, random, sys, time, weakref
 ROOT = os.path.dirname(os.path.dirname(os.path.abspath(__file__)))
@@ -92,7 +92,7 @@ GOOD = {'welcome': b'220 ready\r\n', 'USER': b'331 password please\r\n', 'PASS':
         'final': b'226 done\r\n'}
 DEVIATIONS = [b'500 no\r\n', b'421 go away\r\n', b'530 not logged in\r\n', b'200-multi\r\n line two\r\n200 end\r\n', b'230-\r\n230 ok\r\n', b'220-never finished\r\n', b'garbage\r\n', b'\r\n',
               b'', b'999 x\r\n', b'12 x\r\n', b'2000 x\r\n', b'226 early\r\n', b'150 again\r\n', b'331 more\r\n', b'227 Entering Passive Mode (1,2,3)\r\n', b'227 (a,b,c,d,e,f)\r\n',
-              b'227 Entering Passive Mode (127,0,0,1,999,999)\r\n', b'213 notanumber\r\n', b'213 \r\n', b'213 -5\r\n', b'213 1e9\r\n', b'200 ' + b'x' * 70000 + b'\r\n', b'\xff\xfe\x00\r\n', b'200 ok\n',
+              b'227 Entering Passive Mode (127,0,0,1,999,999)\r\n', b'213 notanumber\r\n', b'213 \r\n', b'213 -5\r\n', b'213 1e9\r\n', b'213 0\r\n', b'213 7\r\n', b'213 100000\r\n', b'200 ' + b'x' * 70000 + b'\r\n', b'\xff\xfe\x00\r\n', b'200 ok\n',
               b'200 ok\r', b'550 no such file\r\n', b'451 local error\r\n', b'350 pending\r\n', b'150-a\r\n150-b\r\n150 c\r\n']
 
 
@@ -191,8 +191,6 @@ def fetch(seed, url, listing, deviate_at, deviation, order, cut_short, final, pa
         verdict = 'hang'; problems.append('the fetch does not end (one virtual hour) although the server has said everything it has to say and closed the data connection')
     for w in srv.writes:
         if not one_line(w): problems.append('control connection write %r is not exactly one CR LF terminated line' % w[:80])
-    if state['failed_at_writes'] is not None and len(srv.writes) > state['failed_at_writes']:
-        problems.append('%d command(s) written after the fetch had been reported as failed: %r' % (len(srv.writes) - state['failed_at_writes'], srv.writes[state['failed_at_writes']][:40]))
     return verdict, problems
 
 
